@@ -161,16 +161,14 @@ class C14(Prop):
                        "wide / zero-width / boundary characters, C0 controls that are executed but not printed, LF / CR LF / empty lines / CR separated from LF by a "
                        "style change, invert with and without explicit colours, all three colour kinds in the fg / bg / underline slots, every effect); every "
                        "combination of colour kind per slot x invert; x {VGA, Win10, random palettes} x six default-colour pairs x background on/off; U+000C, U+FFFE, "
-                       "U+FFFF excluded.  Three observations per input (recovered document, recovered text, raw bytes).  Inputs whose visible text has a carriage "
-                       "return that is not directly before a newline are compared byte for byte only (known findings).  "
+                       "U+FFFF excluded; carriage returns that are NOT directly before a newline (lone CR, CR CR LF, CR / style change / CR LF, CR at the end) included.  "
+                       "Three observations per input (recovered document, recovered text, raw bytes).  "
                        "non-trivial = distinct input whose recovered document has a colour or effect rule in its style sheet")
     trusted = ["third-party html-escape (encode_text) and unicode-width: the first is modelled (& < >) and tied by the byte comparison, the second is an oracle "
                "(width attribute, length of background fills) that is not compared",
                "expat (Python binding) as the independent XML parser; vlib/svgparse.py (structure recovery from parse events)"]
     assumptions = ["visible text consists of XML 1.0 characters (no U+000C, U+FFFE, U+FFFF); the input is a Rust &str (UTF-8)",
-                   "the link from the model's runs to the SGR specification is C07's (in-grammar SGR sequences)",
-                   "a carriage return that is not directly before a newline is outside the checked domain of the text-recovery clause: an XML parser "
-                   "reports it as a line feed (XML 1.0 section 2.11), see known_findings.txt"]
+                   "the link from the model's runs to the SGR specification is C07's (in-grammar SGR sequences)"]
 
     def _inputs(self, tier, rng):
         n = 12000 if tier == "thorough" else 3000
@@ -183,11 +181,9 @@ class C14(Prop):
 
     def streams(self, tier, rng):
         exe, err = core.build_harness(self.harness[0], self.harness[1], features=self.harness_features)
-        driver, derr = core.build_driver()
-        if exe is None or driver is None:
-            raise RuntimeError("C14 first stage: " + (err or derr))
+        if exe is None:
+            raise RuntimeError("C14 first stage: " + err)
         pals = configs(rng, 6 if tier == "thorough" else 2)
-        cr_class = []
         for name, texts in self._inputs(tier, rng):
             cases = []
             for i, s in enumerate(texts):
@@ -195,26 +191,18 @@ class C14(Prop):
                 fg, bg = DEFAULTS[0] if rng.randrange(3) == 0 else rng.choice(DEFAULTS)
                 flag = rng.randrange(2)
                 cases.append("%s %s %s %d %s" % (pal, fg, bg, flag, gen.hexs(list(s.encode("utf-8")))))
-            # first stage: the oracle quantities from the real output; the class of the input from the specification
+            # first stage: the oracle quantities (unicode_width) from the real output
             raw = core.run_parallel([exe], ["svg " + c for c in cases], "C14o")
-            spec = core.run_parallel([driver, "spec"], ["svgtextk " + c for c in cases], "C14c")
             lines = []
-            for c, r, sp in zip(cases, raw, spec):
+            for c, r in zip(cases, raw):
                 try:
                     width, fills = svgparse.oracle(bytes.fromhex(r))
                 except ValueError:
                     width, fills = 0, {}
                 fl = ",".join("%s=%d" % (k.hex(), v) for k, v in sorted(fills.items()) if k) or "-"
-                rawline = "svgraw %s %d %s" % (c, width, fl)
-                keeps_cr = any(tok == "13" for line in sp.split(" ")[1:] for tok in line.split("."))
-                if keeps_cr:
-                    cr_class.append(rawline)
-                else:
-                    lines += ["svgdoc " + c, "svgtext " + c, rawline]
+                lines += ["svgdoc " + c, "svgtext " + c, "svgraw %s %d %s" % (c, width, fl)]
             if lines:
                 yield name, lines
-        if cr_class:
-            yield "carriage-return-not-before-newline(bytes only)", cr_class
 
     def nontrivial(self, line, impl):
         if not line.startswith("svgdoc "):
